@@ -211,7 +211,9 @@ type c14E2E struct {
 	RespLen int           `json:"response_len"`
 	RespCh  int           `json:"response_chunks"`
 	Gap     time.Duration `json:"gap"`
-	Ending  string        `json:"ending"` // ok | target-close-before | target-truncates | client-abort-upload | client-abort-download | sse | upgrade
+	Status  int           `json:"status"` // the target's final status (ok, head and target-truncates endings)
+	Hints   int           `json:"hints"`  // 103 responses the target sends before it
+	Ending  string        `json:"ending"` // ok | head | target-close-before | target-truncates | client-abort-upload | client-abort-download | sse | upgrade
 }
 
 func c14GenE2E(rng *rand.Rand, idx int) c14E2E {
@@ -240,7 +242,14 @@ func c14GenE2E(rng *rand.Rand, idx int) c14E2E {
 		sc.RespLen = 300000
 	}
 	sc.ReqCh, sc.RespCh = 1+rng.IntN(5), 1+rng.IntN(5)
-	sc.Ending = pick(rng, []string{"ok", "ok", "ok", "ok", "target-close-before", "target-truncates", "client-abort-upload", "client-abort-download", "sse", "upgrade"})
+	sc.Ending = pick(rng, []string{"ok", "ok", "ok", "ok", "head", "target-close-before", "target-truncates", "client-abort-upload", "client-abort-download", "sse", "upgrade"})
+	if sc.Ending == "head" {
+		sc.ReqLen, sc.ReqCh = 0, 1
+	}
+	sc.Status = pick(rng, []int{200, 200, 200, 201, 404, 500})
+	if rng.IntN(4) == 0 {
+		sc.Hints = 1 + rng.IntN(2)
+	}
 	return sc
 }
 
@@ -389,7 +398,15 @@ func c14RunE2E(t *testing.T, run *Run, sc c14E2E) {
 			}
 		}
 		// headers first, then the body in pieces with virtual gaps
-		fmt.Fprintf(c, "HTTP/1.1 200 OK\r\nContent-Length: %d\r\nX-Target: buf\r\n\r\n", len(respBody))
+		for i := 0; i < sc.Hints; i++ {
+			fmt.Fprintf(c, "HTTP/1.1 103 Early Hints\r\nLink: </s%d.css>; rel=preload\r\n\r\n", i)
+		}
+		fmt.Fprintf(c, "HTTP/1.1 %d Status\r\nContent-Length: %d\r\nX-Target: buf\r\n\r\n", sc.Status, len(respBody))
+		if sc.Ending == "head" {
+			// the answer to a HEAD request declares the entity's length but carries no body
+			br.Peek(1)
+			return
+		}
 		k := sc.RespCh
 		for i := 0; i < k; i++ {
 			lo, hi := len(respBody)*i/k, len(respBody)*(i+1)/k
@@ -429,6 +446,10 @@ func c14RunE2E(t *testing.T, run *Run, sc c14E2E) {
 	}
 	method := "POST"
 	head := fmt.Sprintf("%s /b HTTP/1.1\r\nHost: c14.example\r\nContent-Length: %d\r\n", method, len(reqBody))
+	if sc.Ending == "head" {
+		head = "HEAD /b HTTP/1.1\r\nHost: c14.example\r\n"
+		reqBody = nil
+	}
 	if sc.Ending == "upgrade" {
 		head = "GET /ws HTTP/1.1\r\nHost: c14.example\r\nConnection: Upgrade\r\nUpgrade: websocket\r\n"
 		reqBody = nil
@@ -470,6 +491,14 @@ func c14RunE2E(t *testing.T, run *Run, sc c14E2E) {
 		}
 		tFirstRespByte = w.Now()
 		m, err := readRawHead(br)
+		for err == nil && m.Status() >= 100 && m.Status() < 200 && m.Status() != 101 {
+			// informational responses precede the response (and may be relayed before it is complete)
+			if _, err = br.Peek(1); err != nil {
+				break
+			}
+			tFirstRespByte = w.Now()
+			m, err = readRawHead(br)
+		}
 		if err != nil {
 			return
 		}
@@ -497,14 +526,14 @@ func c14RunE2E(t *testing.T, run *Run, sc c14E2E) {
 			}
 			return
 		}
-		if sc.BufResp && m.Status() == 200 && sc.RespLen > 16384 {
+		if sc.BufResp && m.Status() == sc.Status && sc.RespLen > 16384 {
 			// the proxy is inside Send now (pipe writes block until read, and the body is larger than
 			// net/http's own 4 KiB write buffer): the spill file still exists
 			if _, err := br.Peek(1); err == nil {
 				spillAtClient = c14Inv(dir, int64(sc.RespLen), sc.MaxMem, false)
 			}
 		}
-		if sc.Ending == "client-abort-download" {
+		if sc.Ending == "client-abort-download" || sc.Ending == "head" {
 			conn.Close()
 			return
 		}
@@ -572,8 +601,15 @@ func c14RunE2E(t *testing.T, run *Run, sc c14E2E) {
 			return
 		}
 	case "target-truncates":
-		if resp != nil && resp.Status() == 200 && resp.BodyErr == "" && len(resp.Body) != len(respBody) && sc.RespLen > 0 {
+		if resp != nil && resp.Status() == sc.Status && resp.BodyErr == "" && len(resp.Body) != len(respBody) && sc.RespLen > 0 {
 			fail("truncation-presented-as-complete", "target cut its body short; client got a complete-looking response of %d bytes", len(resp.Body))
+			return
+		}
+	case "head":
+		// The body of the answer to a HEAD request is empty, so no limit can apply to it: the client
+		// gets the target's status and headers, declared length included, whatever the limits are.
+		if resp == nil || resp.Status() != sc.Status || resp.First("X-Target") != "buf" || resp.First("Content-Length") != fmt.Sprint(len(respBody)) {
+			fail("head-response-differs", "HEAD answered by the target with %d and Content-Length %d (max-response-body %d): client got %+v", sc.Status, len(respBody), sc.MaxResp, resp)
 			return
 		}
 	case "sse":
@@ -593,8 +629,8 @@ func c14RunE2E(t *testing.T, run *Run, sc c14E2E) {
 			}
 			break
 		}
-		if resp == nil || resp.Status() != 200 || resp.First("X-Target") != "buf" || !bytes.Equal(resp.Body, respBody) {
-			fail("response-differs", "target sent 200 with %d bytes; client got %+v body %d bytes", len(respBody), resp, func() int {
+		if resp == nil || resp.Status() != sc.Status || resp.First("X-Target") != "buf" || !bytes.Equal(resp.Body, respBody) {
+			fail("response-differs", "target sent %d with %d bytes; client got %+v body %d bytes", sc.Status, len(respBody), resp, func() int {
 				if resp != nil {
 					return len(resp.Body)
 				}
